@@ -421,6 +421,7 @@ func main() {
 		r.Finish("replay of one recorded case", "replay")
 	}
 	seedUsed = r.Seed
+	streamConsensus()
 	streamCompact(rngFor(1))
 	streamPow(rngFor(2))
 	streamRetarget(rngFor(3))
@@ -440,6 +441,58 @@ func main() {
 	}
 	r.Finish("corpus of compact-target / height / locktime / merkle edge values named in the property's quantifier, then generators: compact encodings (all sizes 0..255 x mantissa edges, negative, zero, overflowing), big ints of every byte length incl. negative, hashes at target-1/target/target+1, in-memory block trees of 1..4100 nodes for mainnet/testnet3/testnet4 with timespans below T/4, inside, above 4T and min-difficulty runs, MTP windows of 1..15 nodes with ties, BIP34 heights across every byte-length boundary, merkle leaf lists of 1..40 with duplicated pairs/tails (CVE-2012-2459), IsFinal boundary grids, and whole blocks mined at 0x207fffff on synthetic chain states with one rule violated per case (see histogram block-mutation/*). distinct = distinct (operation,input) pairs; every generated case reaches the function under test",
 		"each case is run through the real gocoin functions, the Lean model (oracle_c05) and an independent reference written from Bitcoin Core's rules; the property predicate (a block accepted by Chain.CheckBlock violates no rule of the reference; refused blocks leave LastBlock/BlockIndex untouched; compact round trip; required bits = Core's; median; BIP34 push = CScript<<height; mutated flag = Core's) is evaluated on the real code, model/impl equality is the tie for the Lean theorems in Props/C05.lean")
+}
+
+// streamConsensus: the consensus parameters a real chain.NewChainExt installs for the three networks, against
+// Bitcoin Core's chainparams (reference) and against what the translator read from the source (model).
+func streamConsensus() {
+	type want struct {
+		name                                      string
+		bits                                      uint32
+		bip34, bip65, bip66, csv, segwit, taproot uint32
+	}
+	// Core chainparams.cpp: BIP34Height/BIP65Height/BIP66Height/CSVHeight/SegwitHeight, taproot = first block enforcing it
+	ws := []want{{"mainnet", 0x1d00ffff, 227931, 388381, 363725, 419328, 481824, 709632},
+		{"testnet3", 0x1d00ffff, 21111, 581885, 330776, 770112, 834624, 2011968},
+		{"testnet4", 0x1d00ffff, 1, 1, 1, 1, 1, 1}}
+	limit, _ := new(big.Int).SetString("00000000ffffffffffffffffffffffffffffffffffffffffffffffffffffffff", 16)
+	for i, w := range ws {
+		r.Eval("consensus-params", "cons:"+w.name)
+		dir, err := os.MkdirTemp("", "vc05")
+		if err != nil {
+			fmt.Println("cannot create temp dir:", err)
+			os.Exit(3)
+		}
+		var ch *chain.Chain
+		func() {
+			defer func() { recover() }()
+			ch = chain.NewChainExt(dir+string(os.PathSeparator), genesisFor(nets[i]), false, nil, nil)
+		}()
+		if ch == nil {
+			os.RemoveAll(dir)
+			r.TieFail("consensus-newchain", "chain.NewChainExt failed on an empty directory for "+w.name, map[string]interface{}{"op": "cons", "net": w.name})
+			continue
+		}
+		c := ch.Consensus
+		il := fmt.Sprintf("%d %s %d %d %d %d %d %d", c.MaxPOWBits, c.MaxPOWValue.String(), c.BIP34Height, c.BIP65Height, c.BIP66Height, c.Enforce_CSV, c.Enforce_SEGWIT, c.Enforce_Taproot)
+		func() {
+			defer func() { recover() }()
+			ch.Close()
+		}()
+		os.RemoveAll(dir)
+		mo := o.MustAsk("cons " + w.name)
+		rep := map[string]interface{}{"op": "cons", "net": w.name, "impl": il, "model": mo}
+		wl := fmt.Sprintf("%d %s %d %d %d %d %d %d", w.bits, limit.String(), w.bip34, w.bip65, w.bip66, w.csv, w.segwit, w.taproot)
+		if il != wl {
+			r.PropFail("consensus-params:"+w.name, fmt.Sprintf("NewChainExt installs consensus parameters %q for %s, the network's are %q (maxbits maxvalue bip34 bip65 bip66 csv segwit taproot)", il, w.name, wl), rep)
+			continue
+		}
+		if il != mo {
+			r.TieFail("tie-consensus", fmt.Sprintf("translator and runtime disagree on the consensus parameters of %s: impl=%q model=%q", w.name, il, mo), rep)
+			continue
+		}
+		r.TieOK()
+	}
 }
 
 func streamCompact(g *vlib.Rng) {
@@ -806,6 +859,8 @@ func replay(path string) {
 			}
 		}
 		checkFinal("replay", uint32(num("lock")), sq, uint32(num("height")), uint32(num("time")))
+	case "cons":
+		streamConsensus()
 	case "block", "weight-block":
 		replayBlock(doc.Replay)
 	default:
